@@ -944,4 +944,20 @@ pub mod verif_hooks {
             b.context_len,
         )
     }
+    /// `MODIFIER_COMBINING_MARKS` (the marks `reorder_marks_arabic` moves to the front of their class).
+    pub fn modifier_combining_marks() -> &'static [u32] {
+        MODIFIER_COMBINING_MARKS
+    }
+
+    /// What `reorder_marks_arabic` is built from: the two classes it scans for, the class each moved
+    /// run is renumbered to, and the size of its scratch array: [220, CCC22, 230, CCC26, MAX_COMBINING_MARKS].
+    pub fn reorder_marks_constants() -> [u32; 5] {
+        [
+            220,
+            modified_combining_class::CCC22 as u32,
+            230,
+            modified_combining_class::CCC26 as u32,
+            MAX_COMBINING_MARKS as u32,
+        ]
+    }
 }
